@@ -150,6 +150,8 @@ namespace rkverif_c04 {
     take(viaop_i);
     take(vec3fa(a));
     take(vec3f(1.f, 2.f, 3.f)); take(vec2f(1.f, 2.f)); take(vec4f(1.f, 2.f, 3.f, 4.f)); take(vec3fa(1.f, 2.f, 3.f));
+    take(lerp(0.25f, a, b)); take(lerp(0.25f, aa, ab)); take(lerp(0.5f, i3, i3)); take(lerp(0.5f, d3, d3));
+    take(lerp(0.5f, vec_t<unsigned, 2>(1u), vec_t<unsigned, 2>(2u))); take(lerp(0.5f, 1.f, 2.f));
     take(linear_to_srgba(a4)); take(cvt_uint32(a4)); take(linear_to_srgba8(a4)); take(cvt_uint32(1.f));
     take(divRoundUp(vec_t<int, 3, true>(1), vec_t<int, 3, true>(2)));
     take(min(aa, ab)); take(max(aa, ab));
